@@ -99,13 +99,53 @@ def run_focus(prop, focus, tier, seed, extra_rule):
             if ok:
                 raise ToolError(f"binding is vacuous: corrupted trace ({name}, seed {s}) was accepted by NreplTrace")
             rejected += 1
+    if prop == "C30":
+        large_output(ck, seed)
     vacuity(tried >= 4, "no corrupted trace could be built")
     vacuity(flushed >= n // 3, f"only {flushed} traces carry output messages")
     ck.assumptions += ["the exhaustive claim is about the model; trace validation sees the schedules the kernel and hook H3 produce",
-                       "the text of error messages is not compared (#ERROR); which chunks the flusher cuts is left to the search"]
+                       "the text of error messages is not compared (#ERROR); which chunks the flusher cuts is left to the search",
+                       "a request printing 256 KiB is judged by the same invariant evaluated outside TLC (the trace search cannot carry texts of that size)"]
     return ck.finish(rule=f"seeded scenarios ({focus} focus) of 4-10 requests over 10 eval scripts + interrupt / close / clone / unknown session / unknown op, with seeded delays (0-350 ms) and schedule perturbation in 3 of 4 runs; "
                           f"non-trivial = traces with at least one output message; {extra_rule}",
                      extra={"corrupted_traces_rejected": rejected})
+
+
+BIG_CODE = 'let bs = "0123456789abcdef" let bi = 0 while bi < 14 { bs = bs ^ bs bi += 1 } print(bs) println("end") 1'
+BIG_TEXT = "0123456789abcdef" * 16384 + "end\n"
+
+
+def large_output(ck, seed):
+    """Nrepl.tla's AllOutputDelivered (the out messages of a request, concatenated, are what it printed, and
+    its final message comes after them) on a request that prints a quarter of a megabyte just before it ends.
+    TLC cannot carry texts of that size through the trace search (it looks for the flusher's cuts character by
+    character), so for this one shape the invariant is evaluated here, on the recorded messages."""
+    import nrepl_client as nc
+    for k in range(3):
+        srv = nc.Server(sched_seed=(seed * 7 + k if k else None), max_ms=25)
+        try:
+            steps = [(0.0, {"op": "clone", "id": "c1"}), (0.3 if k != 1 else 0.0, {"op": "eval", "id": "e2", "session": "garden-1", "code": BIG_CODE}),
+                     (0.0, {"op": "eval", "id": "e3", "session": "garden-1", "code": "2 + 2"})]
+            events, closed = nc.run_scenario(srv, steps, quiet_s=0.8, max_s=60.0, tail_s=20.0)
+        finally:
+            srv.stop()
+        ck.evaluated()
+        ck.validated()
+        key = f"C30 large output run={k}"
+        ck.nontrivial(key)
+        msgs = [m for kind, m in events if kind == "recv" and nc.text(m.get("id", b"")) == "e2"]
+        out = "".join(nc.text(m["out"]) for m in msgs if "out" in m)
+        finals = [i for i, m in enumerate(msgs) if "status" in m and "done" in [nc.text(x) for x in m["status"]]]
+        last_out = max([i for i, m in enumerate(msgs) if "out" in m] + [-1])
+        problem = None
+        if len(finals) != 1:
+            problem = f"{len(finals)} final messages for the request"
+        elif out != BIG_TEXT:
+            problem = f"the request printed {len(BIG_TEXT)} bytes, the client received {len(out)} in {sum(1 for m in msgs if 'out' in m)} out messages"
+        elif last_out > finals[0]:
+            problem = "output arrived after the final done"
+        if problem:
+            ck.fail(key, f"{key}: {problem}", {"cmd": "nREPL: clone, eval BIG_CODE", "code": BIG_CODE, "received_bytes": len(out), "large_output": True})
 
 
 def run(tier, seed):
@@ -114,6 +154,11 @@ def run(tier, seed):
 
 def replay(rec):
     r = rec["replay"]
+    if r.get("large_output"):
+        ck = Check("C30", "model_checking", "quick", 0)
+        large_output(ck, 0)
+        print(ck.violations if hasattr(ck, "violations") else "")
+        return 1 if getattr(ck, "violations", None) else 0
     ok, res, un = nt.validate(r["trace"], "replay")
     print("accepted" if ok else "rejected", un)
     sc, events = nt.record(r["seed"], r["focus"], sched=(r["seed"] % 4 != 0))
